@@ -47,7 +47,7 @@ def loguniform_case(case):
         tr["logpfinite"] = [bool(np.isfinite(v)) for v in lp]
         tr["ratios"] = [rat(math.exp(v - lpa)) if np.isfinite(v) and np.isfinite(lpa) else [0, 0] for v in lp]
         ins = [a <= float(Fraction(*x)) <= b for x in xs]
-        norm = [abs(math.exp(v) * float(Fraction(*x)) * math.log(b / a) - 1.0) < 1e-9 for v, x, ok in zip(lp, xs, ins) if ok and np.isfinite(v)]
+        norm = [abs(math.exp(v) * float(Fraction(*x)) * math.log(b / a) - 1.0) < 1e-6 for v, x, ok in zip(lp, xs, ins) if ok and np.isfinite(v)]
         tr["normok"] = bool(all(norm)) if norm else True
     except Exception as ex:
         tr["raised"] = True
@@ -66,7 +66,7 @@ def sigmak_case(case):
     try:
         p3 = Fraction(*case["p3"])
         Pd = 4.0
-        P0d = Pd * {Fraction(2): 1 / 8.0, Fraction(1): 1.0, Fraction(1, 2): 8.0}[p3]      # (P/P0)^(-1/3) = p3
+        P0d = Pd * {Fraction(2): 8.0, Fraction(1): 1.0, Fraction(1, 2): 1 / 8.0}[p3]      # (P/P0)^(-1/3) = p3  <=>  P0 = P p3^3
         r = Fraction(*case["r"])
         e = {Fraction(1): 0.0, Fraction(4, 5): 0.6, Fraction(3, 5): 0.8}[r]
         pu, p0u, ku = U(case["punit"]), U(case["p0unit"]), U(case["kunit"])
@@ -136,13 +136,14 @@ def lnprior_case(case):
         tr["insupport"] = ok
         # joint log-density of each row, every term evaluated at the row's own values (parents substituted)
         pars = prior.pars
-        rvs = [pars[nm] for nm in names]
-        vals = [pm.logp(pars[nm], pars[nm].type()) for nm in names]
         # build one function of all values: substitute the RVs by inputs
         inputs = [pytensor.tensor.dscalar(nm + "_val") for nm in names]
         terms = []
         for nm in names:
-            lp = pm.logp(pars[nm], inputs[names.index(nm)])
+            try:
+                lp = pm.logp(pars[nm], inputs[names.index(nm)])
+            except NotImplementedError:
+                continue        # uniform angle of pymc_ext: no log-density available, a constant on its support
             terms.append(lp)
         total = sum(terms)
         # parents appear in the graph as the RVs themselves: replace them by the corresponding inputs
